@@ -519,7 +519,10 @@ def rule_no_stopiteration_leak(em, rep, rid):
                 else:
                     rep.violation(rid, key, 'when the inner generator has no answer, next() raises StopIteration inside a generator: '
                                   'the goal raises RuntimeError instead of failing', f.loc(c))
-    rep.minimum('one-argument next() calls in generators', n, 1)
+    two = len([c for f in em.repo.all_functions(('engine',)) if f.is_generator for c in own_nodes(f.node)
+               if isinstance(c, ast.Call) and is_name(c.func, 'next') and len(c.args) == 2])
+    rep.ok(rid, 'next() calls', '%d one-argument and %d two-argument (defaulted, cannot raise StopIteration) next() calls in generators' % (n, two),
+           None, nontrivial=bool(n))
 
 
 def _dispatch_classes(em, f, depth=2, seen=None):
@@ -1284,6 +1287,22 @@ def rule_remove_by_identity(em, rep, rid, sm=None):
                     return any(is_name(x) and x.id in loopvars for x in ast.walk(e)) and \
                         (' in ' in norm(e) or ' is ' in norm(e) or 'index' in norm(e))
                 guards = [t for t in dom[p_] if t.kind == 'test' and presence_test(t.ast)]
+                if not guards:
+                    # ``rest = [c for c in cur if c is not clause]; if len(rest) != len(cur):`` - shorter exactly when present
+                    for t in dom[p_]:
+                        e = t.ast if t.kind == 'test' else None
+                        if isinstance(e, ast.Compare) and len(e.ops) == 1 and isinstance(e.ops[0], (ast.NotEq, ast.Lt, ast.Gt)):
+                            sides = [e.left, e.comparators[0]]
+                            if all(isinstance(x, ast.Call) and is_name(x.func, 'len') and len(x.args) == 1 and is_name(x.args[0]) for x in sides):
+                                a_, b_ = sides[0].args[0].id, sides[1].args[0].id
+                                for short, full in ((a_, b_), (b_, a_)):
+                                    defs = [s_ for s_ in own_nodes(f.node) if isinstance(s_, ast.Assign) and any(is_name(tg, short) for tg in s_.targets)]
+                                    if defs and all(isinstance(s_.value, ast.ListComp) and len(s_.value.generators) == 1 and
+                                                    is_name(s_.value.generators[0].iter, full) and
+                                                    any(isinstance(c_, ast.Compare) and isinstance(c_.ops[0], ast.IsNot) and
+                                                        any(is_name(y) and y.id in loopvars for y in ast.walk(c_))
+                                                        for c_ in s_.value.generators[0].ifs) for s_ in defs):
+                                        guards.append(t)
                 if not guards:
                     # ``x = helper(.., clause); if x is not None:`` where the helper returns a value only when the clause is present
                     for t in dom[p_]:
